@@ -1,8 +1,10 @@
 // C18: descriptive statistics
-use crate::util::*;
+#[path = "../util.rs"]
+mod util;
 use spindalis::utils::{arith_mean, geom_mean, std_dev, StdDevType};
+use util::*;
 
-pub fn run(line: &str) -> String {
+fn run(line: &str) -> String {
     let mut t = Toks::new(line);
     let cmd = t.word();
     match cmd {
@@ -22,4 +24,8 @@ pub fn run(line: &str) -> String {
         }
         _ => format!("badcmd {cmd}"),
     }
+}
+
+fn main() {
+    main_loop(run);
 }
